@@ -2,10 +2,283 @@
 
 package main
 
-import "github.com/semihalev/sdns/internal/verif/vlib"
+import (
+	"context"
+	"fmt"
+	"go/ast"
+	"go/parser"
+	"go/printer"
+	"go/token"
+	"net"
+	"os"
+	"path/filepath"
+	"strings"
+	"time"
 
-func execAdm(f []string) vlib.Res { return vlib.Res{Impl: "bad-op"} }
+	"github.com/miekg/dns"
+	"github.com/semihalev/sdns/config"
+	"github.com/semihalev/sdns/internal/mock"
+	"github.com/semihalev/sdns/internal/verif/vlib"
+	"github.com/semihalev/sdns/middleware"
+	"github.com/semihalev/sdns/middleware/cache"
+)
 
-func admFacts() map[string]any { return map[string]any{} }
+// Admission guard of the shared denial state (cache.ResponseWriter.WriteMsg):
+// a real Cache in front of a stub "resolver" that hands back a DNSSEC-shaped
+// negative response with or without resolver provenance.
+//
+//   adm new
+//   adm write <k> <reqcd> <respcd> <ecs> <marked> <agg> <kind 0|1|2> <fam 1|2> <nx|nd> <copy> <optout>
 
-func genAdmCase(r *vlib.R, emit func(string)) int { return genNsecCase(r, emit) }
+type admStub struct {
+	respCD, marked, agg, copyMsg, optout bool
+	kind, fam                            int
+	nx                                   bool
+	zone                                 string
+	calls                                int
+}
+
+func (s *admStub) Name() string { return "c02upstream" }
+
+func admSig(owner string, covered uint16, zone string) *dns.RRSIG {
+	exp := uint32(time.Now().Add(2 * time.Hour).Unix())
+	return &dns.RRSIG{Hdr: dns.RR_Header{Name: owner, Rrtype: dns.TypeRRSIG, Class: dns.ClassINET, Ttl: 300},
+		TypeCovered: covered, Algorithm: dns.RSASHA256, Labels: uint8(dns.CountLabel(owner)), OrigTtl: 300,
+		Expiration: exp, Inception: exp - 10800, KeyTag: 1, SignerName: zone, Signature: "AA=="}
+}
+
+func (s *admStub) ServeDNS(ctx context.Context, ch *middleware.Chain) {
+	s.calls++
+	req := ch.Request.Msg()
+	zone := s.zone
+	m := new(dns.Msg)
+	m.SetReply(req)
+	m.RecursionAvailable = true
+	m.AuthenticatedData = true
+	m.CheckingDisabled = s.respCD
+	if s.nx {
+		m.Rcode = dns.RcodeNameError
+	}
+	soa := &dns.SOA{Hdr: dns.RR_Header{Name: zone, Rrtype: dns.TypeSOA, Class: dns.ClassINET, Ttl: 300},
+		Ns: "ns1." + zone, Mbox: "hostmaster." + zone, Serial: 1, Refresh: 3600, Retry: 600, Expire: 86400, Minttl: 300}
+	m.Ns = []dns.RR{soa, admSig(zone, dns.TypeSOA, zone)}
+	if s.fam == 1 {
+		n1 := &dns.NSEC{Hdr: dns.RR_Header{Name: zone, Rrtype: dns.TypeNSEC, Class: dns.ClassINET, Ttl: 300},
+			NextDomain: "c." + zone, TypeBitMap: []uint16{dns.TypeNS, dns.TypeSOA, dns.TypeRRSIG, dns.TypeNSEC}}
+		n2 := &dns.NSEC{Hdr: dns.RR_Header{Name: "c." + zone, Rrtype: dns.TypeNSEC, Class: dns.ClassINET, Ttl: 300},
+			NextDomain: "e." + zone, TypeBitMap: []uint16{dns.TypeA, dns.TypeRRSIG, dns.TypeNSEC}}
+		m.Ns = append(m.Ns, n1, admSig(zone, dns.TypeNSEC, zone), n2, admSig("c."+zone, dns.TypeNSEC, zone))
+	} else {
+		z3 := &zone3{z: parseZone(fromPres(zone).String(), "1", fromPres(zone).String()+":2,6,46,48,51;"+fromPres("c."+zone).String()+":1,46"), optOut: s.optout, opted: map[string]bool{}}
+		for _, r := range z3.ring() {
+			rr := r.rr()
+			m.Ns = append(m.Ns, rr, admSig(rr.Hdr.Name, dns.TypeNSEC3, zone))
+		}
+	}
+	subject := req.Question[0].Name
+	if s.marked {
+		switch s.kind {
+		case 0:
+			// the legacy provenance API: no proof family
+			middleware.MarkValidatedDenialResponse(ctx, m, middleware.ValidatedDenial{DeniedName: subject, Zone: zone})
+		case 1:
+			middleware.MarkValidatedNegativeProofResponse(ctx, m, middleware.ValidatedNegativeProof{
+				Subject: subject, Zone: zone, Kind: middleware.ValidatedNegativeProofNSEC, Aggressive: s.agg})
+		default:
+			middleware.MarkValidatedNegativeProofResponse(ctx, m, middleware.ValidatedNegativeProof{
+				Subject: subject, Zone: zone, Kind: middleware.ValidatedNegativeProofNSEC3, Aggressive: s.agg})
+		}
+	}
+	out := m
+	if s.copyMsg {
+		out = m.Copy() // an equal-looking message is not the validated one
+	}
+	_ = ch.Writer.WriteMsg(out)
+}
+
+var (
+	admCache *cache.Cache
+	admSt    *admStub
+)
+
+func pb(s string) bool { return s == "t" }
+
+func execAdm(f []string) vlib.Res {
+	switch f[1] {
+	case "new":
+		if admCache != nil {
+			admCache.Stop()
+		}
+		admCache = cache.New(&config.Config{CacheSize: 1024, Expire: 600})
+		admSt = &admStub{}
+		return vlib.Res{Impl: "ok"}
+	case "write":
+		k := atoi(f[2])
+		reqCD, respCD, ecsOn, marked, agg := pb(f[3]), pb(f[4]), pb(f[5]), pb(f[6]), pb(f[7])
+		kind, fam, nx, cp, optout := atoi(f[8]), atoi(f[9]), f[10] == "nx", pb(f[11]), pb(f[12])
+		*admSt = admStub{respCD: respCD, marked: marked, agg: agg, copyMsg: cp, optout: optout, kind: kind, fam: fam, nx: nx,
+			zone: fmt.Sprintf("z%d.c02.test.", k)}
+		req := new(dns.Msg)
+		req.SetQuestion("d."+admSt.zone, dns.TypeA)
+		req.RecursionDesired = true
+		req.CheckingDisabled = reqCD
+		o := new(dns.OPT)
+		o.Hdr.Name, o.Hdr.Rrtype = ".", dns.TypeOPT
+		o.SetUDPSize(1232)
+		o.SetDo()
+		if ecsOn {
+			o.Option = append(o.Option, &dns.EDNS0_SUBNET{Code: dns.EDNS0SUBNET, Family: 1, SourceNetmask: 24, Address: net.IPv4(198, 51, 100, 0).To4()})
+		}
+		req.Extra = append(req.Extra, o)
+		cuts0, proofs0 := admCache.Stats()["nxdomain_cut_size"].(int), admCache.Stats()["denial_proof_size"].(int)
+		w := mock.NewWriter("udp", "192.0.2.9:4242")
+		ch := middleware.NewChain([]middleware.Handler{admCache, admSt})
+		ch.Reset(w, req)
+		ch.Next(context.Background())
+		cuts1, proofs1 := admCache.Stats()["nxdomain_cut_size"].(int), admCache.Stats()["denial_proof_size"].(int)
+		gotProof, gotCut := proofs1 > proofs0, cuts1 > cuts0
+		// the property, spelled out: shared denial state only for a locally
+		// validated (exact response identity), aggressive-eligible, typed
+		// proof, request CD=0, response CD=0, no client ECS
+		allowed := marked && !cp && agg && kind != 0 && !reqCD && !respCD && !ecsOn
+		or := "ok"
+		if (gotProof || gotCut) && !allowed {
+			var why []string
+			if !marked || cp {
+				why = append(why, "no-local-provenance")
+			}
+			if !agg || kind == 0 {
+				why = append(why, "not-aggressive-eligible")
+			}
+			if reqCD || respCD {
+				why = append(why, "cd")
+			}
+			if ecsOn {
+				why = append(why, "ecs")
+			}
+			or = "FAIL sig=adm/shared-state-written/" + strings.Join(why, "+")
+		}
+		if gotCut && (!nx || (fam == 2 && optout)) {
+			or = "FAIL sig=adm/cut-recorded/" + map[bool]string{true: "optout-span", false: "not-nxdomain"}[nx]
+		}
+		return vlib.Res{Impl: fmt.Sprintf("proof=%s cut=%s up=%d", vlib.B(gotProof), vlib.B(gotCut), admSt.calls), Oracle: or, Tags: "nt"}
+	}
+	return vlib.Res{Impl: "bad-op"}
+}
+
+func genAdmCase(r *vlib.R, emit func(string)) int {
+	emit("adm new")
+	n := 6 + r.Intn(8)
+	for i := 0; i < n; i++ {
+		// mostly-admissible inputs with one or two guards flipped
+		b := func(num, den int) string { return vlib.B(r.Chance(num, den)) }
+		kind := vlib.Pick(r, []int{1, 1, 1, 2, 2, 0})
+		fam := kind
+		if fam == 0 || r.Chance(1, 8) {
+			fam = 1 + r.Intn(2)
+		}
+		emit(fmt.Sprintf("adm write %d %s %s %s %s %s %d %d %s %s %s", i, b(1, 6), b(1, 8), b(1, 6), b(7, 8), b(5, 6), kind, fam,
+			vlib.Pick(r, []string{"nx", "nx", "nd"}), b(1, 8), b(1, 4)))
+	}
+	return n + 1
+}
+
+// ---- shape facts about Resolver.authority (go/ast walk over the tree under test) ----
+
+func exprStr(fset *token.FileSet, e ast.Node) string {
+	var sb strings.Builder
+	_ = printer.Fprint(&sb, fset, e)
+	return strings.Join(strings.Fields(sb.String()), " ")
+}
+
+// guardsOfCall returns the conditions of the if-statements enclosing the
+// first call of callee inside fn (innermost last).
+func guardsOfCall(fset *token.FileSet, fn *ast.FuncDecl, callee string) (guards []string, found bool) {
+	var stack []ast.Node
+	ast.Inspect(fn.Body, func(n ast.Node) bool {
+		if found {
+			return false
+		}
+		if n == nil {
+			stack = stack[:len(stack)-1]
+			return true
+		}
+		stack = append(stack, n)
+		if c, ok := n.(*ast.CallExpr); ok && strings.HasSuffix(exprStr(fset, c.Fun), callee) {
+			found = true
+			for i, s := range stack {
+				if is, ok := s.(*ast.IfStmt); ok && i+1 < len(stack) && stack[i+1] == is.Body {
+					guards = append(guards, exprStr(fset, is.Cond))
+				}
+			}
+			return false
+		}
+		return true
+	})
+	return guards, found
+}
+
+func admFacts() map[string]any {
+	repo := os.Getenv("VERIF_REPO")
+	if repo == "" {
+		repo = "/repo"
+	}
+	out := map[string]any{
+		"shape_mark_guarded_by_secure_cd_negative": false,
+		"shape_ad_is_denial_secure":                false,
+		"shape_nsec3_aggressive_needs_secure":      false,
+		"shape_aggressive_flag_from_evaluator":     false,
+		"shape_validator_error_returns_error":      false,
+	}
+	fset := token.NewFileSet()
+	file, err := parser.ParseFile(fset, filepath.Join(repo, "middleware/resolver/resolver.go"), nil, 0)
+	if err != nil {
+		return out
+	}
+	var fn *ast.FuncDecl
+	for _, d := range file.Decls {
+		if f, ok := d.(*ast.FuncDecl); ok && f.Name.Name == "authority" && f.Recv != nil {
+			fn = f
+		}
+	}
+	if fn == nil {
+		return out
+	}
+	has := func(gs []string, sub string) bool {
+		for _, g := range gs {
+			if strings.Contains(g, sub) {
+				return true
+			}
+		}
+		return false
+	}
+	if gs, ok := guardsOfCall(fset, fn, "MarkValidatedNegativeProofResponse"); ok {
+		out["shape_mark_guarded_by_secure_cd_negative"] = has(gs, "denialSecure") && has(gs, "!req.CheckingDisabled") && has(gs, "isNegative") &&
+			has(gs, "r.dnssec && verified")
+	}
+	if gs, ok := guardsOfCall(fset, fn, "EvaluateAggressiveNSEC3"); ok {
+		out["shape_nsec3_aggressive_needs_secure"] = len(gs) > 0 && gs[len(gs)-1] == "denialSecure"
+	}
+	body := exprStr(fset, fn.Body)
+	out["shape_ad_is_denial_secure"] = strings.Contains(body, "resp.AuthenticatedData = denialSecure") &&
+		strings.Count(body, "resp.AuthenticatedData =") == 1
+	out["shape_aggressive_flag_from_evaluator"] = strings.Contains(body, "Aggressive: aggressiveEligible") &&
+		strings.Count(body, "aggressiveEligible = true") == 2 &&
+		strings.Count(body, "if err == nil && result.Rcode == resp.Rcode { aggressiveEligible = true }") == 2
+	// every exact validator's error leaves authority() with (nil, err): SERVFAIL upstream of the cache
+	okAll := true
+	for _, v := range []string{"VerifyNameErrorNSEC(resp, nsecSet); err != nil", "VerifyNODATANSEC(resp, nsecSet); err != nil"} {
+		i := strings.Index(body, v)
+		if i < 0 || !strings.Contains(body[i:min(len(body), i+400)], "return nil, err") {
+			okAll = false
+		}
+	}
+	for _, v := range []string{"VerifyNameErrorForZoneWithWork(", "VerifyNODATAForZoneWithWork("} {
+		i := strings.Index(body, v)
+		if i < 0 || !strings.Contains(body[i:min(len(body), i+500)], "return nil, denialErr") {
+			okAll = false
+		}
+	}
+	out["shape_validator_error_returns_error"] = okAll
+	return out
+}
